@@ -240,24 +240,30 @@ impl C15 {
                 all.sort_by(|x, y| x.denom.cmp(&y.denom));
                 variants.push(("all".into(), all));
                 for (vn, funds) in variants {
-                    let (pid2, posid2, funds2) = (pid.clone(), posid.clone(), funds.clone());
-                    cells.push((
-                        format!("pm.lock_{vn}.{posid}"),
-                        Box::new(move |s, _| Op::Pm {
-                            sender: s.to_string(),
-                            msg: PmMsg::ProvideLiquidity {
-                                liquidity_max_slippage: None,
-                                swap_max_slippage: Some(Decimal::percent(50)),
-                                receiver: None,
-                                pool_identifier: pid2.clone(),
-                                unlocking_duration: Some(dur),
-                                lock_position_identifier: Some(posid2.clone()),
-                            },
-                            funds: funds2.clone(),
-                        }),
-                        Rule::PositionOwner(p.receiver.to_string()),
-                        true,
-                    ));
+                    // with the position's own duration and with a present-but-zero one; for the
+                    // depositor themselves and "on behalf of" the position's owner
+                    for (dn, d) in [("", dur), (".zero", 0u64)] {
+                        for (rn, recv) in [("", None), (".recv_owner", Some(p.receiver.to_string()))] {
+                            let (pid2, posid2, funds2, recv2) = (pid.clone(), posid.clone(), funds.clone(), recv.clone());
+                            cells.push((
+                                format!("pm.lock_{vn}{dn}{rn}.{posid}"),
+                                Box::new(move |s, _| Op::Pm {
+                                    sender: s.to_string(),
+                                    msg: PmMsg::ProvideLiquidity {
+                                        liquidity_max_slippage: None,
+                                        swap_max_slippage: Some(Decimal::percent(50)),
+                                        receiver: recv2.clone(),
+                                        pool_identifier: pid2.clone(),
+                                        unlocking_duration: Some(d),
+                                        lock_position_identifier: Some(posid2.clone()),
+                                    },
+                                    funds: funds2.clone(),
+                                }),
+                                Rule::PositionOwner(p.receiver.to_string()),
+                                true,
+                            ));
+                        }
+                    }
                 }
             }
         }
@@ -296,6 +302,11 @@ impl C15 {
             for role in roles.iter() {
                 for with_funds in [false, true] {
                     if *funds_inherent && with_funds {
+                        continue;
+                    }
+                    // the pool manager addressing itself "on behalf of" a receiver is its own second
+                    // leg of a single-asset deposit, not a principal anybody can act as
+                    if label.contains(".recv_owner") && *role == a.pm.as_str() {
                         continue;
                     }
                     let extra = if with_funds { vec![coin(1, "uom")] } else { vec![] };
